@@ -553,11 +553,81 @@ def r07_6(ck: Check) -> None:
                     why = "a return does not pass the guard, or returns something else than the re-encoded value"
                     continue
                 ok = True
+        if not ok and "vlq" in fi.name:
+            why_b = _vlq_canonical_by_length(ck, s)
+            if why_b is None:
+                ck.ok("R07.6", "%s: the number of octets consumed equals the number the encoder writes for the decoded value" % short(fi.qualname),
+                      "big-endian base-128 digits with the recorded arithmetic: encodings of one value differ only in leading zero digits, so "
+                      "one length means one encoding", fi.loc)
+                continue
         if ok:
             ck.ok("R07.6", construct, "the variable-length integer has exactly one accepted encoding: the encoder's", fi.loc)
         else:
             ck.violated("R07.6", construct, "a length-prefix / height with several accepted encodings gives one content several ids — " + why, fi.loc)
     ck.expect_count("R07.6", "decoders with a data-dependent number of reads", found, 1)
+
+
+def _vlq_canonical_by_length(ck: Check, s: Any) -> Optional[str]:
+    """the other sound way to have a single accepted encoding: count the octets read and refuse unless the count is the one the encoder
+    uses for the decoded value (`bit_length() // 7 + 1`, R18.5). Sound only together with the digit arithmetic itself - one octet per
+    iteration, value = 128 * value + (octet mod 128), stop at the first octet below 128 - which is therefore checked here too (with the
+    re-encoding form a wrong arithmetic refuses everything and cannot survive the tests; with this form it could).
+    Returns None when every part is as required, else what is not."""
+    from .common import loop_updates
+    fi = s.fi
+    try:
+        head, ups, _fi = loop_updates(ck, fi.qualname, 0)
+    except Exception as e:   # noqa
+        return "no single decoding loop (%s)" % str(e)[:60]
+    reads = [e for e in s.events if e.kind == "call" and "skepticoin.serialization.safe_read" in e.targets]
+    if len(reads) != 1 or len(reads[0].loops) != 1 or reads[0].term[2][1:2] != (C(1),) or residual(reads[0], ()):
+        return "not exactly one unconditional one-octet read per iteration"
+    counters = [n for n, v in ups.items() if v == ("lin", ((("lv", n, 0), 1),), 1)]
+    values = [n for n, v in ups.items() if v[0] == "lin" and v[2] == 0 and dict(v[1]).get(("lv", n, 0)) == 128 and len(v[1]) == 2
+              and any(a[0] == "op" and a[1] == "mod" and a[3] == C(128) and k == 128 for a, k in v[1])]
+    if len(counters) != 1 or len(values) != 1:
+        return "no octet counter incremented by one per iteration next to value = 128 * value + 128 * (octet mod 128)"
+    cn, rn = counters[0], values[0]
+    raw = ck.repo.raw_function(fi)
+    inits = {}
+    for st in raw.body:
+        if isinstance(st, (ast.Assign, ast.AnnAssign)):
+            for t in (st.targets if isinstance(st, ast.Assign) else [st.target]):
+                if isinstance(t, ast.Name) and t.id in (cn, rn):
+                    inits.setdefault(t.id, []).append(st.value)
+    for n in (cn, rn):
+        if len(inits.get(n, [])) != 1 or not (isinstance(inits[n][0], ast.Constant) and inits[n][0].value == 0 and not isinstance(inits[n][0].value, bool)):
+            return "%s does not start at 0" % n
+    loops_ = [n for n in ast.walk(raw) if isinstance(n, ast.While)]
+    if len(loops_) != 1:
+        return "more than one loop"
+    brk = [n for n in ast.walk(loops_[0]) if isinstance(n, ast.If) and any(isinstance(x, ast.Break) for x in n.body)]
+    if len(brk) != 1 or ast.unparse(brk[0].test).replace(" ", "") not in ("b<128", "b<=127", "128>b", "127>=b"):
+        return "the loop does not stop exactly at the first octet below 128"
+    if not any(isinstance(st, ast.AugAssign) and isinstance(st.target, ast.Name) and st.target.id == rn and isinstance(st.op, ast.Add)
+               and ast.unparse(st.value).replace(" ", "") in ("b%128", "(b%128)", "b&127", "b&0x7f", "(b&127)") for st in loops_[0].body):
+        return "the last octet's digit is not added before the loop is left"
+    rs = s.raises()
+    if len(rs) != 1:
+        return "%d raise statements" % len(rs)
+    rest = residual(rs[0], ())
+    if len(rest) != 1 or rest[0].term[0] != "cmpz" or rest[0].term[1] != "!=" or rest[0].term[2][0] != "lin":
+        return "the guard is not a comparison of the octet count with the encoder's length"
+    atoms = {}
+    for a, k in rest[0].term[2][1]:
+        atoms[(a[0], a[1]) if a[0] == "lv" else a[:2] + (a[2][1][1][:2] if a[0] == "op" and a[2][0] == "call" and a[2][1][0] == "a" and a[2][1][1][0] == "lv" else ("?",)) + a[3:]] = k
+    const = rest[0].term[2][2]
+    sign = atoms.get(("lv", cn))
+    want_len = ("op", "floordiv", "lv", rn, C(7))
+    if sign not in (1, -1) or atoms.get(want_len) != -sign or const != -sign or len(atoms) != 2:
+        return "the guard does not compare the octet count with value.bit_length() // 7 + 1"
+    bl = [a for a, _k in rest[0].term[2][1] if a[0] == "op"][0][2]
+    if bl[1][2] != "bit_length":
+        return "the length is not computed from bit_length()"
+    rets = s.returns()
+    if not rets or not all(r.term[0] == "lv" and r.term[1] == rn and r.seq > rs[0].seq for r in rets):
+        return "a return does not pass the guard, or returns something else than the decoded value"
+    return None
 
 
 def r07_2_lists(ck: Check) -> None:
